@@ -5,7 +5,7 @@ sys.path.insert(0, '/verif')
 from analysis.facts import Facts, norm_path
 from analysis.sym import *
 from analysis import cfg
-f = Facts(max(glob.glob('/verif/.cache/facts-*.json'), key=os.path.getmtime))
+f = Facts(os.environ.get('TU_FACTS') or max(glob.glob('/verif/.cache/facts-*.json'), key=os.path.getmtime))
 pat = sys.argv[1]
 withg = '-g' in sys.argv
 for b in f.bodies:
